@@ -6,7 +6,8 @@
 //   (b) feeds those bytes to the OPPOSITE side's codec,
 //       PeerCodec::negotiate(remote, local).try_parse, until the buffer is
 //       exhausted / incomplete / rejected, and prints what was decoded.
-// Observation: [enc_result, bytes, [decoded..., leftover]].
+//   (c) re-encodes every decoded value (after validate_message) and decodes it again.
+// Observation: [enc_result, bytes, [decoded...], leftover, [fixed-point flags]].
 #[allow(dead_code)]
 mod val {
     include!(concat!(env!("VERIF_HX_DIR"), "/common/val.rs"));
@@ -309,6 +310,7 @@ fn run_case(case: &Val) -> Val {
     let bytes = Val::from_bytes(&buf);
     let mut rx = PeerCodec::negotiate(&remote, &local);
     let mut decoded = Vec::new();
+    let mut parsed: Vec<ParsedMessage> = Vec::new();
     let mut guard = 0usize;
     loop {
         if buf.is_empty() {
@@ -320,7 +322,10 @@ fn run_case(case: &Val) -> Val {
             break;
         }
         match rx.try_parse(&mut buf) {
-            Ok(Some(m)) => decoded.push(parsed_val(&m)),
+            Ok(Some(m)) => {
+                decoded.push(parsed_val(&m));
+                parsed.push(m);
+            }
             Ok(None) => {
                 decoded.push(Val::L(vec![Val::I(-4)]));
                 break;
@@ -335,7 +340,40 @@ fn run_case(case: &Val) -> Val {
             }
         }
     }
-    Val::L(vec![enc, bytes, Val::L(decoded), Val::us(buf.len())])
+    let leftover = buf.len();
+    // (c) decode(encode(y)) = y for every value y obtained by decoding: validate y into
+    // send-path messages, encode them with the sender's codec, decode with the peer's.
+    let mut fix = Vec::new();
+    for y in &parsed {
+        fix.push(Val::I(refix(y, &mut tx, &mut rx)));
+    }
+    Val::L(vec![enc, bytes, Val::L(decoded), Val::us(leftover), Val::L(fix)])
+}
+
+// 1: fixed point, 0: not a fixed point, 2: not applicable (validation yields != 1 message)
+fn refix(y: &ParsedMessage, tx: &mut PeerCodec, rx: &mut PeerCodec) -> i128 {
+    let msgs: Vec<Message> = match rustybgp_packet::validate_message(y.clone(), false) {
+        Ok(it) => it.collect(),
+        Err(_) => return 2,
+    };
+    if msgs.len() != 1 {
+        return 2;
+    }
+    let mut buf = BytesMut::new();
+    if tx.encode_to(&msgs[0], &mut buf).is_err() {
+        return 0;
+    }
+    let mut again = Vec::new();
+    while !buf.is_empty() {
+        match rx.try_parse(&mut buf) {
+            Ok(Some(m)) => again.push(m),
+            _ => return 0,
+        }
+    }
+    if again.len() != 1 {
+        return 0;
+    }
+    if parsed_val(&again[0]) == parsed_val(y) { 1 } else { 0 }
 }
 
 fn main() {
